@@ -1434,12 +1434,12 @@ def search(ctx, hints):
     items = []
     for h in hints[:60]:
         i = h["input"]
-        if i.get("which") in ("r", "n", "c"):
+        if "absent" in i:                        # a disagreement of the `api` stream: the same call, restated on the API
+            items.append({"kind": "apicall", "which": i["which"], **{k: i[k] for k in "pcnr"}})
+        elif i.get("which") in ("r", "n", "c"):
             items.append(dict(i, kind="order"))
         elif i.get("which") in ("ksingle", "kdouble", "newton"):
             items.append({"kind": "kfactor", "p": i["p"], "c": i["c"], "n": i["n"]})
-        elif "absent" in i:                      # a disagreement of the `api` stream: the same call, restated on the API
-            items.append({"kind": "apicall", "which": i["which"], **{k: i[k] for k in "pcnr"}})
         elif "shapes" in i:                      # a disagreement of the k-factor array streams
             arrs = {k: np.asarray(i[k]) for k in "pcn"}
             items.append({"kind": "kcall", **{k: {"shape": list(a.shape), "values": a.ravel().tolist()} for k, a in arrs.items()}})
